@@ -15,7 +15,10 @@ import trainer_io as T
 from consts import trainer_io as K
 
 ID = "C07"
-TRUSTED = ["CPython repr(float)/float(str) round trip and the character set of repr (checked on every probability on disk)",
+TRUSTED = ["harness/translate_writer.py: the reading it gives to its Python subset, and coq/theories/WriterRt.v (statement sequences as "
+           "out/bind, try/except Exception, the disk as a finite map from paths to text with os.walk / os.unlink / open 'w' / "
+           "write, the codec as the per-character oracle encb, str(float) as the oracle repr, a None Counter key as its str())",
+           "CPython repr(float)/float(str) round trip and the character set of repr (checked on every probability on disk)",
            "codecs encode/decode of the ruleset encoding; configparser and json for config.ini",
            "str.splitlines / str.rstrip / int(): probed over all code points on every run, compared with the model on every file"]
 TRUSTED.append("translator tie of check_valid: the reading harness/translate_reader.py gives its accepted Python subset and the "
@@ -539,6 +542,8 @@ def run(ctx):
         ("omeng", "omen_guesser_case", "check_omen_guesser", G["omeng"]),
         ("omens", "omen_scorer_case", "check_omen_scorer", G["omens"]),
         ("cfg", "list (N * list (str * N)) * list str", "check_config_lists", G["cfg"])], per=60)
+    import writer_tie
+    corr = writer_tie.obligations(["save", "config"]) + corr
     # lower-casing (alpha values are stored lower-cased) cannot create a TAB or a line break: sweep of the interpreter
     lbt = set(C["linebreak"]) | {9}
     bad_lower = [c for c in range(0x110000) if c not in lbt and any(ord(d) in lbt for d in chr(c).lower())]
